@@ -136,7 +136,6 @@ func runC01(c *core.Ctx) {
 // structural compares the compiled state graph with the reference automaton for exact language equality
 func structural(c *core.Ctx, p *Prog) {
 	c.Journal(CaseDesc{Decl: DeclStr(p), Spec: p.Spec, Note: "structural: compile and compare the state graph"})
-	ga, sa := RefGNFA(p)
 	gb, sb, serr, pan := drive.ImplGNFA(p)
 	if pan != nil {
 		c.Violation(fmt.Sprintf("compiling a well-formed spec panicked: %v", pan), nil, nil)
@@ -146,21 +145,28 @@ func structural(c *core.Ctx, p *Prog) {
 		c.Violation("a well-formed spec did not compile: "+serr.Text, nil, nil)
 		return
 	}
-	alpha := map[string]bool{}
-	for s := range sa {
-		alpha[s] = true
+	eqWith := func(regex bool) (bool, []string) {
+		ga, sa := RefGNFA(p, regex)
+		alpha := map[string]bool{}
+		for s := range sa {
+			alpha[s] = true
+		}
+		for s := range sb {
+			alpha[s] = true
+		}
+		var al []string
+		for s := range alpha {
+			al = append(al, s)
+		}
+		sort.Strings(al)
+		return Equivalent(ga, gb, al)
 	}
-	for s := range sb {
-		alpha[s] = true
-	}
-	var al []string
-	for s := range alpha {
-		al = append(al, s)
-	}
-	sort.Strings(al)
 	c.Inc("graphs_compared")
 	c.Max("graph_states", gb.N)
-	if eq, w := Equivalent(ga, gb, al); !eq {
-		c.Violation("the compiled state graph and the reference automaton denote different languages", map[string]interface{}{"distinguishing_word": w}, nil)
+	// option groups may be compiled as one group matcher (as the pinned library does) or as a loop over its options
+	if eq, w := eqWith(false); !eq {
+		if eq2, _ := eqWith(true); !eq2 {
+			c.Violation("the compiled state graph and the reference automaton denote different languages", map[string]interface{}{"distinguishing_word": w}, nil)
+		}
 	}
 }
